@@ -1444,6 +1444,13 @@ for( i=0; i<(int)node.number_of_dimensions; i++ ) {
     *error_return = MAX_INT32_SIZE_EXCEEDED;
     CHECK_ADF_ABORT( *error_return ) ;
   }
+#else
+  /* a value that turns negative as cgsize_t cannot have been written by
+     ADF_Put_Dimension_Information */
+  if ((cgsize_t)node.dimension_values[i] < 0) {
+    *error_return = BAD_DIMENSION_VALUE;
+    CHECK_ADF_ABORT( *error_return ) ;
+  }
 #endif
    dim_vals[i] = (cgsize_t)node.dimension_values[i] ;
 }
